@@ -30,7 +30,7 @@ def plan(tier):
     return {"cases": 20000 if tier == "quick" else 300000, "shards": 16, "case_timeout": 20, "shard_timeout": 3000,
             "min_nontrivial": 200 if tier == "quick" else 1500,
             "min_counters": {"rows_compared": 5000, "elseif_cases": 500, "both_sides_true": 100,
-                             "the_checked": 1000, "exactly_checked": 1000}}
+                             "the_checked": 1000, "exactly_checked": 1000, "an_after_the_checked": 1000}}
 
 
 def setup(ctx):
@@ -224,6 +224,18 @@ def run(spec, ctx):
         C["the:" + want] += 1
         if outcome != want:
             problems.append(f"the(): {outcome}, expected {want} for {n} satisfying assignments")
+        else:
+            # the() stops at the second solution: the an() over the same description still sees every assignment
+            idmap = {id(o): i for i, o in enumerate(b.objs)}
+            try:
+                after = Counter(tuple(G.canon_val(v, idmap) for v in G.row_of(r2, b, spec)) for r2 in b.query.evaluate())
+            except Exception as e:
+                after = f"{type(e).__name__}: {e}"[:120]
+                recover(ctx)
+            C["an_after_the_checked"] += 1
+            if after != ce:
+                problems.append(f"an() over the description that the() ({outcome}) was evaluated on before: "
+                                f"{sum(after.values()) if isinstance(after, Counter) else after} results for {n} satisfying assignments")
         # count constraints see the true number
         for cons, ok in ((Exactly(n), True), (AtMost(n), True), (AtLeast(n), True),
                          (AtLeast(n + 1), False)) + (((AtMost(n - 1), False),) if n > 0 else ()):
